@@ -10,6 +10,7 @@ import (
 	"time"
 
 	"github.com/enfein/mieru/v3/pkg/metrics"
+	"github.com/enfein/mieru/v3/pkg/metrics/metricspb"
 
 	"verif/engine/runner"
 	"verif/engine/seqx"
@@ -43,6 +44,9 @@ type csys struct {
 	total int64
 	adds  [][2]int64 // (virtual ms, delta)
 	trace []string
+
+	snap      *metricspb.Metric
+	snapValue int64
 }
 
 func newC() *csys {
@@ -53,6 +57,13 @@ func newC() *csys {
 func nowMS() int64 { return world.Epoch.UnixMilli() + vsched.ManualNow/1e6 }
 
 func (s *csys) Apply(op int) (string, bool) {
+	// a snapshot taken now (as a dump or the management API would) must not be affected by later operations
+	snap := metrics.ToMetricPB(s.c)
+	snapValue := snap.GetValue()
+	defer func() {
+		_ = snapValue
+	}()
+	s.snap, s.snapValue = snap, snapValue
 	switch {
 	case op == 0 || op == 1:
 		d := int64(1)
@@ -74,7 +85,19 @@ func (s *csys) Apply(op int) (string, bool) {
 		vsched.ManualNow += int64(a)
 		s.trace = append(s.trace, fmt.Sprintf("advance(%v)", a))
 	}
-	return s.check(), true
+	if v := s.check(); v != "" {
+		return v, true
+	}
+	if s.snap != nil {
+		var sum int64
+		for _, h := range s.snap.GetHistory() {
+			sum += h.GetDelta()
+		}
+		if sum != s.snapValue || s.snap.GetValue() != s.snapValue {
+			return fmt.Sprintf("a snapshot taken before the operation changed afterwards: value %d, its history now sums to %d", s.snapValue, sum), true
+		}
+	}
+	return "", true
 }
 
 func (s *csys) check() string {
